@@ -50,7 +50,7 @@ def decode_body(body):
     return bytes(out)
 
 
-def clause(facts, rep, tier, which=None, rule='E5.quote-eval'):
+def clause(facts, rep, tier, which=None, rule='E5.quote-eval', exact_reads=False):
     # the kernels proper (the runtime-dispatch entry only forwards to one of them)
     fs = [f for f in facts.functions if f.short == 'Quote' and len(f.params) == 3 and f.blocks and 'char' in f.params[0]['t'] and ('::avx2::' in f.name or '::sse::' in f.name)]
     if which:
@@ -96,10 +96,18 @@ def clause(facts, rep, tier, which=None, rule='E5.quote-eval'):
                 L = len(s)
                 src = src_page + 2 * PAGE - off - L          # two mapped pages, then unmapped
                 mem = {}
-                for a in range(max(src_page, src - 2 * V - 8), src_page + 2 * PAGE):
-                    mem[a] = 0x7a
+                if not exact_reads:
+                    # the bytes around the string are readable up to the end of the page; those BEHIND it are quotes, so a
+                    # lane beyond nb that leaks into the escape mask shows in the output
+                    for a in range(max(src_page, src - 2 * V - 8), src):
+                        mem[a] = 0x7a
+                    for a in range(src + L, src_page + 2 * PAGE):
+                        mem[a] = 0x22
+                # (exact_reads: a sanitizer build - any read outside [src, src+nb) is an error, as the sanitizer would report)
                 for i, b in enumerate(s):
                     mem[src + i] = b
+                if not mem:
+                    mem[src_page - 8] = 0
                 room = 6 * L + 32 + 3
                 for a in range(dst, dst + room):
                     mem[a] = 0xCD
